@@ -30,20 +30,20 @@ def v(id, mod, old, new, fire, note=""):
 
 # --------------------------------------------------------------------------- algorithms.py
 A = "algorithms"
-v("alg-htilde-yadj-sign", A, '                - "Yadj"\n', '                + "Yadj"\n', ["C01", "C04"])
-v("alg-w-offdiag-dropped", A, 'zero if two_block_optimized else "U\'† @ U\'" / -2', "zero", ["C01", "C02"])
-v("alg-b-masked-term-dropped", A, 'zero if commuting_blocks[index[0]] else "V @ H\'_diag" + "V @ H\'_diag".adj', "zero", ["C01"])
-v("alg-yadj-diag-dropped", A, 'zero if commuting_blocks[index[0]] else ("X".adj + "X") / 2', "zero", ["C01"])
-v("alg-b-offdiag-sign", A, '            -"U\'† @ B"\n', '            "U\'† @ B"\n', ["C01", "C04"])
-v("alg-uprime-dagger-sign", A, '"W" - "V"', '"W" + "V"', ["C01", "C02", "C03"])
+v("alg-htilde-yadj-sign", A, '                - "Yadj"\n', '                + "Yadj"\n', ["C01", "C07", "C04"])
+v("alg-w-offdiag-dropped", A, 'zero if two_block_optimized else "U\'† @ U\'" / -2', "zero", ["C01", "C07", "C02"])
+v("alg-b-masked-term-dropped", A, 'zero if commuting_blocks[index[0]] else "V @ H\'_diag" + "V @ H\'_diag".adj', "zero", ["C01", "C07"])
+v("alg-yadj-diag-dropped", A, 'zero if commuting_blocks[index[0]] else ("X".adj + "X") / 2', "zero", ["C01", "C07"])
+v("alg-b-offdiag-sign", A, '            -"U\'† @ B"\n', '            "U\'† @ B"\n', ["C01", "C07", "C04"])
+v("alg-uprime-dagger-sign", A, '"W" - "V"', '"W" + "V"', ["C01", "C07", "C02", "C03"])
 v("alg-false-hermitian-product", A, 'with "H\'_offdiag @ U\'":\n        pass\n\n    with "U\'† @ B"', 'with "H\'_offdiag @ U\'":\n        hermitian\n\n    with "U\'† @ B"', ["C02", "C18"])
-v("alg-b-diag-coefficient", A, '+ "H\'_offdiag @ U\'".adj) / -2', '+ "H\'_offdiag @ U\'".adj) / 2', ["C01"])
-v("alg-v-sylvester-sign", A, '-solve_sylvester("Yadj".adj', 'solve_sylvester("Yadj".adj', ["C01", "C03"])
+v("alg-b-diag-coefficient", A, '+ "H\'_offdiag @ U\'".adj) / -2', '+ "H\'_offdiag @ U\'".adj) / 2', ["C01", "C07"])
+v("alg-v-sylvester-sign", A, '-solve_sylvester("Yadj".adj', 'solve_sylvester("Yadj".adj', ["C01", "C07", "C03"])
 v("alg-w-marked-antihermitian", A, '    with "W":\n        start = 0\n        hermitian', '    with "W":\n        start = 0\n        antihermitian', ["C02"])
-v("alg-commuting-flag-inverted", A, 'zero if commuting_blocks[index[0]] else ("X".adj + "X") / 2', 'zero if not commuting_blocks[index[0]] else ("X".adj + "X") / 2', ["C01"])
-v("alg-v-gets-kept-part", A, '        antihermitian\n        if offdiagonal:\n            -solve_sylvester(', '        antihermitian\n        if diagonal:\n            "Yadj" / 2\n        if offdiagonal:\n            -solve_sylvester(', ["C03", "C01"])
-v("alg-x-missing-term", A, '"B" + "H\'_offdiag" + "H\'_offdiag @ U\'"\n\n    with "B":\n        start = 0\n        if diagonal:', '"B" + "H\'_offdiag"\n\n    with "B":\n        start = 0\n        if diagonal:', ["C01"])
-v("alg-htilde-half", A, '+ ("U\'† @ B" + "U\'† @ B".adj) / -2', '+ ("U\'† @ B" + "U\'† @ B".adj) / -4', ["C01", "C04"])
+v("alg-commuting-flag-inverted", A, 'zero if commuting_blocks[index[0]] else ("X".adj + "X") / 2', 'zero if not commuting_blocks[index[0]] else ("X".adj + "X") / 2', ["C01", "C07"])
+v("alg-v-gets-kept-part", A, '        antihermitian\n        if offdiagonal:\n            -solve_sylvester(', '        antihermitian\n        if diagonal:\n            "Yadj" / 2\n        if offdiagonal:\n            -solve_sylvester(', ["C03", "C01", "C07"])
+v("alg-x-missing-term", A, '"B" + "H\'_offdiag" + "H\'_offdiag @ U\'"\n\n    with "B":\n        start = 0\n        if diagonal:', '"B" + "H\'_offdiag"\n\n    with "B":\n        start = 0\n        if diagonal:', ["C01", "C07"])
+v("alg-htilde-half", A, '+ ("U\'† @ B" + "U\'† @ B".adj) / -2', '+ ("U\'† @ B" + "U\'† @ B".adj) / -4', ["C01", "C07", "C04"])
 v("alg-nh-uprime-diag-coefficient", A, '"U_inv\' @ U\'" / -2', '"U_inv\' @ U\'" / 2', ["C05"])
 v("alg-nh-uinv-sign", A, '-"U\'" - "U_inv\' @ U\'"', '-"U\'" + "U_inv\' @ U\'"', ["C05"])
 v("alg-nh-htilde-term", A, '"H\'_diag" + "B" + "U_inv\' @ B"', '"H\'_diag" + "B" - "U_inv\' @ B"', ["C05"])
@@ -134,6 +134,11 @@ v("ok-bd-mask-guard-nested", B, "                if hermitian and not (to_elimin
 v("ok-bd-conflict-demorgan", B, "    if solve_sylvester is not None and fully_diagonalize:\n        raise NotImplementedError(", "    if not (solve_sylvester is None or not fully_diagonalize):\n        raise NotImplementedError(", [])
 v("ok-bd-dense-guard-mirrored", B, "np.abs(energy_differences) > atol, 1 / energy_differences, 0\n                )\n            return Y * energy_denominators", "np.abs(energy_differences) <= atol, 0, 1 / energy_differences\n                )\n            return Y * energy_denominators", [])
 
+v("bd-heval-converts-first-entry-only", B, "                return result.applyfunc(\n                    lambda x: NumberOrderedForm.from_expr(x, operators)\n                )", "                return result.applyfunc(\n                    lambda x: NumberOrderedForm.from_expr(result[0, 0], operators)\n                )", ["C07"])
+v("bd-operator-problem-gets-numeric-solver", B, "            solve_sylvester = second_quantization.solve_sylvester_2nd_quant(diagonal)", "            solve_sylvester = solve_sylvester_diagonal(diagonal, atol=atol)", ["C07"])
+v("bd-postprocessing-unwraps-matrix-problems", B, "                if (\n                    scalar_input\n                    and isinstance(result, sympy.MatrixBase)\n                    and result.shape == (1, 1)\n                ):", "                if (\n                    isinstance(result, sympy.MatrixBase)\n                    and result.shape == (1, 1)\n                ):", ["C07"])
+v("bd-postprocessing-order-swapped", B, 'create_postprocessing_eval(outputs[name]) for name in ["H_tilde", "U", "U†"]', 'create_postprocessing_eval(outputs[name]) for name in ["H_tilde", "U†", "U"]', ["C07", "C01"])
+v("bd-diagonal-from-unconverted-h", B, "        diagonal = _extract_diagonal(H, atol, use_implicit, operators)", "        diagonal = _extract_diagonal(H, atol, use_implicit)", ["C07"])
 # --------------------------------------------------------------------------- linalg.py
 L = "linalg"
 v("la-rmatvec-transpose", L, "return v - self._left_vecs @ (self._vecs.conj().T @ v)", "return v - self._left_vecs.conj() @ (self._vecs.T @ v)", ["C17", "C06"])
@@ -154,17 +159,17 @@ v("ok-la-rmatvec-rewritten", L, "return v - self._left_vecs @ (self._vecs.conj()
 
 # --------------------------------------------------------------------------- number_ordered_form.py
 N = "number_ordered_form"
-v("nof-annihilators-ascending", N, "for i, power in reversed(list(enumerate(powers))):", "for i, power in enumerate(powers):", ["C08"])
-v("nof-creators-descending", N, "            for i, power in enumerate(powers):\n                if not power < 0:", "            for i, power in reversed(list(enumerate(powers))):\n                if not power < 0:", ["C08"])
+v("nof-annihilators-ascending", N, "for i, power in reversed(list(enumerate(powers))):", "for i, power in enumerate(powers):", ["C08", "C07"])
+v("nof-creators-descending", N, "            for i, power in enumerate(powers):\n                if not power < 0:", "            for i, power in reversed(list(enumerate(powers))):\n                if not power < 0:", ["C08", "C07"])
 v("nof-old-coefficient-shifted", N, "                        new_numbers = new_numbers.xreplace(\n                            {n_operator: n_operator + new_power}\n                        )\n                        coeff = coeff * new_numbers\n",
   "                        coeff = (coeff * new_numbers).xreplace(\n                            {n_operator: n_operator + new_power}\n                        )\n", ["C08"])
-v("nof-annihilation-shift-sign", N, "coeff = coeff.xreplace({n_operator: n_operator - to_pair})", "coeff = coeff.xreplace({n_operator: n_operator + to_pair})", ["C08"])
-v("nof-falling-factorial-offset", N, "coeff, *(n_operator - i for i in range(to_pair))", "coeff, *(n_operator - i for i in range(1, to_pair + 1))", ["C08"])
-v("nof-crossing-branch-swapped", N, "                    if orig_power == 1 or new_power == 1:", "                    if orig_power == -1 or new_power == -1:", ["C08"])
-v("nof-crossing-misses-higher-creators", N, ") + sum(int(pow == -One) for pow in powers[op_index + 1 :])", ")", ["C08"])
-v("nof-adjoint-keeps-powers", N, "(tuple(-power for power in powers), coeff.adjoint())", "(tuple(power for power in powers), coeff.adjoint())", ["C08"])
-v("nof-expr-shift-on-creation", N, "                    if power > 0:\n                        # a * n_a = n_a + 1\n                        replacements[n_i] = n_i + power", "                    if power < 0:\n                        # a * n_a = n_a + 1\n                        replacements[n_i] = n_i + power", ["C08"])
-v("nof-phases-reordered", N, "            # Now multiply by the number part\n            partial = partial._multiply_expr(coeff)\n", "", ["C08"])
+v("nof-annihilation-shift-sign", N, "coeff = coeff.xreplace({n_operator: n_operator - to_pair})", "coeff = coeff.xreplace({n_operator: n_operator + to_pair})", ["C08", "C07"])
+v("nof-falling-factorial-offset", N, "coeff, *(n_operator - i for i in range(to_pair))", "coeff, *(n_operator - i for i in range(1, to_pair + 1))", ["C08", "C07"])
+v("nof-crossing-branch-swapped", N, "                    if orig_power == 1 or new_power == 1:", "                    if orig_power == -1 or new_power == -1:", ["C08", "C07"])
+v("nof-crossing-misses-higher-creators", N, ") + sum(int(pow == -One) for pow in powers[op_index + 1 :])", ")", ["C08", "C07"])
+v("nof-adjoint-keeps-powers", N, "(tuple(-power for power in powers), coeff.adjoint())", "(tuple(power for power in powers), coeff.adjoint())", ["C08", "C07"])
+v("nof-expr-shift-on-creation", N, "                    if power > 0:\n                        # a * n_a = n_a + 1\n                        replacements[n_i] = n_i + power", "                    if power < 0:\n                        # a * n_a = n_a + 1\n                        replacements[n_i] = n_i + power", ["C08", "C07"])
+v("nof-phases-reordered", N, "            # Now multiply by the number part\n            partial = partial._multiply_expr(coeff)\n", "", ["C08", "C07"])
 v("ok-nof-reversed-tuple", N, "for i, power in reversed(list(enumerate(powers))):", "for i, power in reversed(tuple(enumerate(powers))):", [])
 
 # --------------------------------------------------------------------------- algorithm_parsing.py
@@ -188,8 +193,8 @@ v("ok-ap-diagonal-adjoint-index", P, "slice=ast.Index(value=self._index(adjoint 
 
 # --------------------------------------------------------------------------- second_quantization.py
 Q = "second_quantization"
-v("sq-shift-direction", Q, "_number_operator_to_placeholder(NumberOperator(op)) + delta", "_number_operator_to_placeholder(NumberOperator(op)) - delta", ["C16"])
-v("sq-denominator-one-sided", Q, "            denominator = shifted_H_jj - shifted_H_ii", "            denominator = shifted_H_ii - shifted_H_jj", ["C16"])
+v("sq-shift-direction", Q, "_number_operator_to_placeholder(NumberOperator(op)) + delta", "_number_operator_to_placeholder(NumberOperator(op)) - delta", ["C16", "C07"])
+v("sq-denominator-one-sided", Q, "            denominator = shifted_H_jj - shifted_H_ii", "            denominator = shifted_H_ii - shifted_H_jj", ["C16", "C07"])
 v("sq-mask-shared-with-caller", B, "                key: np.array(sympy.sympify(value).applyfunc(NumberOrderedForm.from_expr))", "                key: sympy.sympify(value).applyfunc(NumberOrderedForm.from_expr)", ["C10"])
 
 
